@@ -475,7 +475,13 @@ impl Indexable for ast::ParentClassList {
                 }
             }
         } else if let Some(multiclass_id) = ctx.scopes.current_multiclass_id() {
-            for class_ref in self.classes() {
+            // the parent list of a defm written inside this multiclass ends up here as well
+            let in_defm = ctx.scopes.current_defm_id().is_some();
+            for (i, class_ref) in self.classes().enumerate() {
+                if in_defm && i > 0 && names_class_only(&class_ref, ctx) {
+                    resolve_class_ref_as_class(&class_ref, ctx);
+                    continue;
+                }
                 if let Some(parent_multiclass_id) = resolve_class_ref_as_multiclass(&class_ref, ctx)
                 {
                     let multiclass = ctx.symbol_map.multiclass_mut(multiclass_id);
